@@ -21,7 +21,8 @@ returned by pycel must be a member of the allowed set exported by TLC.
 import json
 import os
 import random
-from concurrent.futures import ProcessPoolExecutor
+import time
+from concurrent.futures import ProcessPoolExecutor, ThreadPoolExecutor
 from fractions import Fraction
 
 from harness import tlc, xl
@@ -308,10 +309,28 @@ def run(tier, seed):
     v = Verdict(PID, tier, seed)
     rnd = random.Random(seed)
     jobs = min(16, os.cpu_count() or 4)
+    # fork the workers now, while this process is still small
+    pool = ProcessPoolExecutor(max_workers=jobs)
+    pool.submit(int, 0).result()
 
-    # ---- TLC: exhaustive, all sequences up to length 4 over the 10-value pool
-    res = tlc.run('MC_Aggregates', 'Aggregates_mc.cfg', workers=4, coverage=True,
-                  timeout=800)
+    # ---- TLC, three runs side by side:
+    # exhaustive: all sequences up to length 4 over the 10-value pool;
+    # -simulate: long ranges (up to 25 = 5x5) over the larger pools, most
+    # traces over the error-free pool (a random long range over a pool with
+    # errors nearly always holds one), the rest over the pool with errors
+    quick = tier == 'quick'
+    # (cfg, TLC workers, traces per worker)
+    sims = (('Aggregates_big.cfg', 1 if quick else 4, 4 if quick else 30),
+            ('Aggregates_bigerr.cfg', 1 if quick else 2, 2 if quick else 20))
+    tlc.scratch_dir()          # create the shared scratch before the threads start
+    with ThreadPoolExecutor(max_workers=3) as tp:
+        f_mc = tp.submit(tlc.run, 'MC_Aggregates', 'Aggregates_mc.cfg', workers=4,
+                         coverage=True, timeout=800)
+        f_sims = [tp.submit(tlc.run, 'MC_Aggregates', cfg, workers=w,
+                            simulate=dict(num=nt), depth=26, seed=seed + 1, timeout=800)
+                  for cfg, w, nt in sims]
+        res = f_mc.result()
+        sim_res = [f.result() for f in f_sims]
     if not res.ok:
         raise tlc.MachineryFailure(
             f'Aggregates model violates {res.violated}:\n' + res.stdout[-2500:])
@@ -323,16 +342,10 @@ def run(tier, seed):
         raise tlc.MachineryFailure(
             f'export incomplete: {len(vectors)} vectors for {res.distinct} states')
     exhaustive_n = len(vectors)
-
-    # ---- TLC -simulate: long ranges (up to 25 = 5x5) over the larger pools;
-    # most traces over the error-free pool (a random long range over a pool
-    # with errors nearly always holds one), the rest over the pool with errors
     seen = {canon(x) for x in vectors}
     long_vecs = []
-    for cfg, ntraces in (('Aggregates_big.cfg', 4 if tier == 'quick' else 160),
-                         ('Aggregates_bigerr.cfg', 2 if tier == 'quick' else 60)):
-        sim = tlc.run('MC_Aggregates', cfg, workers=1, simulate=dict(num=ntraces),
-                      depth=26, seed=seed + 1, coverage=False, timeout=600)
+    for (cfg, w, nt), sim in zip(sims, sim_res):
+        ntraces = w * nt
         if not sim.ok:
             raise tlc.MachineryFailure(
                 f'Aggregates model ({cfg}, simulation) violates {sim.violated}:\n'
@@ -369,8 +382,9 @@ def run(tier, seed):
     for i in range(0, len(order), chunk):
         idx = order[i:i + chunk]
         tasks.append(([vectors[j] for j in idx], seed, [flags[j] for j in idx]))
+    t_drive = time.time()
     nform = nfull = 0
-    with ProcessPoolExecutor(max_workers=jobs) as ex:
+    with pool as ex:
         for task, results in zip(tasks, ex.map(_work, tasks)):
             for vec, (viol, known, ncase, keys, nf) in zip(task[0], results):
                 ck = canon(vec)
@@ -388,6 +402,7 @@ def run(tier, seed):
                                   average=show(vec['average']), count=show(vec['count']),
                                   sumproduct_rot=show(vec['sprot'])))
     v.traces = nfull
+    v.extra['phase_s'] = dict(tlc=round(t_drive - v.t0, 1), drive=round(time.time() - t_drive, 1))
     v.extra.update(
         exhaustive=True, exhaustive_vectors=exhaustive_n,
         simulated_vectors=len(long_vecs), max_len_exhaustive=4, max_len_simulated=25,
@@ -410,3 +425,49 @@ def run(tier, seed):
                      'pool numbers are multiples of 1/2, so binary floating point sums are '
                      'exact; results are compared with relative tolerance 1e-9']
     return v.finish()
+
+
+def tla(x):
+    """JSON value exported by TLC -> TLA+ literal"""
+    if isinstance(x, list):
+        return '<<' + ', '.join(tla(y) for y in x) + '>>'
+    if isinstance(x, str):
+        return '"' + x + '"'
+    return str(x)
+
+
+def replay(path):
+    """Re-run one recorded discrepancy: TLC re-derives the allowed results for
+    the recorded range (all laws checked on it), then the real code is driven."""
+    with open(path) as f:
+        rec = json.load(f)
+    cells = rec['case']['cells']
+    d = tlc.new_scratch('replay')
+    with open(os.path.join(d, 'ReplayAggregates.tla'), 'w') as f:
+        f.write(f'---- MODULE ReplayAggregates ----\nEXTENDS MC_Aggregates\n'
+                f'RSeq == {tla(cells)}\nRInit == s = RSeq\nRNext == UNCHANGED s\n====\n')
+    cfg = open(os.path.join(tlc.SPEC, 'Aggregates_big.cfg')).read()
+    cfg = cfg.replace('SPECIFICATION Spec', 'INIT RInit\nNEXT RNext')
+    cfg = '\n'.join(line for line in cfg.splitlines()
+                    if not line.startswith(('PROPERTY', 'INVARIANT TypeOK')))
+    with open(os.path.join(d, 'R.cfg'), 'w') as f:
+        f.write(cfg + '\n')
+    res = tlc.run('ReplayAggregates', 'R.cfg', spec_dir=d, workers=1, library=tlc.SPEC)
+    if not res.ok or len(res.json) != 1:
+        raise tlc.MachineryFailure('replay: TLC failed on the recorded range:\n'
+                                   + res.stdout[-1500:])
+    vec = res.json[0]
+    seed = int(os.environ.get('VERIF_SEED', '0') or 0)
+    viol, known, ncase, keys, nf = check_vector(vec, seed, True)
+    print(f'replay {PID}: range {cells}; {ncase} cases, {nf} formulas')
+    from harness.evidence import load_findings
+    listed = any(e['id'] == FINDING_SCALAR_BLANK and e.get('status') == 'known'
+                 for e in load_findings(PID))
+    for desc, case in known:
+        if listed:
+            print(f'KNOWN-FINDING: property={PID} {FINDING_SCALAR_BLANK} {desc}')
+        else:
+            viol.append((desc + f' [unlisted finding id {FINDING_SCALAR_BLANK}]', case))
+    for desc, case in viol:
+        print(f'VIOLATION property={PID} replay={path}\n  {desc}')
+    return 1 if viol else 0
